@@ -398,7 +398,18 @@ class Harness:
         return bad
 
     # -- batches ------------------------------------------------------------------------------------------
-    def run(self, lines):
+    def run(self, lines, attempt=0):
+        out = self.run_once(lines)
+        # flake guard: an operation that could not be observed at all (timeout, socket error, swap-out not logged in time on an
+        # overloaded machine) is not a verdict; such scenarios are run again, twice at most.  Wrong results are never retried.
+        again = [i for i, o in enumerate(out) if re.search(r"=unsettled|=fail\b|=fail,|io-error|abort:restart-failed", o)]
+        if again and attempt < 2:
+            redo = self.run([lines[i] for i in again], attempt + 1)
+            for i, o in zip(again, redo):
+                out[i] = o
+        return out
+
+    def run_once(self, lines):
         scs = [parse_line(l) for l in lines]
         runs = []
         for sc in scs:
